@@ -28,7 +28,7 @@ M_acct(p) ==
   \A a \in Addrs :
        IF a \in DOMAIN p.acct
          THEN /\ acct'[a].kind = p.acct[a].kind
-              /\ (acct'[a].kind \in {"cv", "delayed"} => /\ acct'[a].ov = CoinsOf(p.acct[a].ov) /\ acct'[a].start = p.acct[a].start /\ acct'[a].end = p.acct[a].end
+              /\ (acct'[a].kind \in {"cv", "delayed", "permlocked"} => /\ acct'[a].ov = CoinsOf(p.acct[a].ov) /\ acct'[a].start = p.acct[a].start /\ acct'[a].end = p.acct[a].end
                                            /\ acct'[a].dv = p.acct[a].dv /\ acct'[a].df = p.acct[a].df)
          ELSE acct'[a].kind = "none"
 M_pools(p) ==
